@@ -7,7 +7,14 @@ N="$1"; shift
 OUT=/tmp/b/$N/OUT
 cd /repo
 if [ -s "$OUT/hooks.diff" ]; then
-  git apply --exclude=src/util/verif.rs "$OUT/hooks.diff"
+  if ! git apply --exclude=src/util/verif.rs "$OUT/hooks.diff" 2>/dev/null; then
+    # appends at the same place as an earlier hook: 3-way apply, then take the union
+    git apply --3way --exclude=src/util/verif.rs "$OUT/hooks.diff" || true
+    for f in $(git diff --name-only --diff-filter=U); do
+      sed -i -e '/^<<<<<<< /d' -e '/^=======$/d' -e '/^>>>>>>> /d' "$f"
+      git add "$f"
+    done
+  fi
   for ID in "$@"; do
     m=$(echo "$ID" | tr 'A-Z' 'a-z')
     if [ -f "src/util/verif/$m.rs" ] && ! grep -q "pub mod $m;" src/util/verif.rs; then echo "pub mod $m;" >> src/util/verif.rs; fi
